@@ -1,5 +1,6 @@
 import Proofs.C14.Descsum
 import Proofs.C14.Scan
+import Proofs.C14.Roundtrip
 /-!
 # C14 — descriptors and wallets derive what they describe and recognise only their own
 
@@ -254,5 +255,99 @@ theorem descriptor_wallet_position_none_iff (spks : β → Nat → List σ) (ran
       · intro h b hb j hj; exact h b (List.mem_cons_of_mem _ hb) j hj
 
 end T5
+
+
+/-! ## T2 — the text written back parses to an equal descriptor
+
+`Model/C14/Descriptor.lean` mirrors the reader (`parse`, `_parse_expression`, `_parse_tree`,
+`_parse_multi*`, `_parse_key`, `_origin_and_rest`, `_key_origin`, `_split_wildcard`, `_fixed_pub_key`,
+`_split_arguments`, `_split_function`, BIP380 path steps) and the writer (`__str__` of every fragment,
+`KeyExpression.__str__`, `_tree_expression`).  What a key ATOM is (extended key / curve point / WIF /
+address) is a `KeyOracle` parameter: the theorems hold for every oracle.  `musig()` and miniscript
+bodies are outside this model (round-trip oracle on the real code only). -/
+section T2
+open Btc.Desc Gen.Descriptor
+
+/-- the tables the reader model was written from are the ones in the current source: function names
+    and position rules of `_PARSERS`, the tree functions, where a miniscript may be written, the
+    `_parse_key` flags of every reader, the bounds and the spellings. -/
+theorem parser_tables_as_modelled :
+    (∀ fn ∈ Fn.all, ∀ ctx ∈ [Ctx.top, Ctx.sh, Ctx.wsh, Ctx.tr],
+      ((PARSERS.lookup (String.ofList fn.chars)).map fun l => l.contains ctx.name) = some (fn.allowed ctx)) ∧
+    PARSERS.map (·.1) = Fn.all.map (fun fn => String.ofList fn.chars) ∧
+    TREE_FUNCTIONS = [String.ofList nMultiA, String.ofList nSortedmultiA] ∧
+    MINISCRIPT_CONTEXTS = ["wsh", "tr"] ∧
+    KEY_FLAGS = [("_parse_pk", "context == _P2TR", "_no_uncompressed(context)", "False"),
+      ("_parse_pkh", "False", "_no_uncompressed(context)", "False"),
+      ("_parse_wpkh", "False", "True", "False"), ("_parse_combo", "False", "False", "False"),
+      ("_parse_multi", "False", "_no_uncompressed(context)", "False"), ("_parse_tr", "True", "True", "True"),
+      ("_parse_rawtr", "True", "True", "True"), ("_parse_multi_a", "True", "True", "True"),
+      ("_parse_tree", "True", "True", "True")] ∧
+    MAX_TREE_DEPTH = 128 ∧ HARDENED_OFFSET = 2 ^ 31 ∧ MAX_PATH_STEPS = 255 ∧ INDEX_BOUND = 2 ^ 31 ∧
+    BIP380_HARDENINGS = ['\'', 'h'] ∧ HARDENING = 'h' ∧ WILDCARDS = ["*", "*'", "*h"] := by
+  refine ⟨by decide, by decide, by decide, by decide, by decide, by decide, by decide, by decide, by decide,
+    by decide, by decide, by decide⟩
+
+/-- T2 (keys): `_parse_key(str(key)) == key` for every well-formed key expression — origin with any
+    path, fixed key (compressed, uncompressed, x-only) or extended key with any path and either
+    wildcard, either hardening symbol — at every position whose flags admit the key. -/
+theorem parse_key_of_str (o : KeyOracle) (xOnly compressed musigAllowed : Bool) (k : Key)
+    (h : KeyOk o xOnly compressed k) : parseKey o xOnly compressed musigAllowed (strKey k) = .ok k :=
+  parseKey_strKey o xOnly compressed musigAllowed k h
+
+/-- T2 (trees): `_parse_tree(_tree_expression(t)) == t` for every tree of `pk()`, `multi_a()`,
+    `sortedmulti_a()` leaves no deeper than `MAX_TREE_DEPTH`. -/
+theorem parse_tree_of_str (o : KeyOracle) (t : Tree) (h : TreeOk o t) (hd : t.height ≤ MAX_TREE_DEPTH) :
+    parseTree o (t.height + 1) 0 (strTree t) = .ok t :=
+  parseTree_strTree o t _ 0 h (by omega) (by omega)
+
+/-- T2: `parse(str(d)) == d`, and `parse(add_checksum(str(d))) == d`, for EVERY descriptor of the
+    grammar model (covered constructors: pk, pkh, wpkh, combo, sh, wsh, multi, sortedmulti, tr with
+    and without a tree of pk / multi_a / sortedmulti_a leaves, rawtr, addr, raw; all nestings the
+    position rules allow) whose text is over the input charset.  By structural induction. -/
+theorem parse_of_str (o : KeyOracle) (d : D) (h : DOk o .top d)
+    (hcs : ∀ c ∈ strD d, c ∈ INPUT_CHARSET ∧ c ≠ '#') :
+    Desc.parse o (strD d) = .ok d ∧
+    ∀ cs, checksum (strD d) = some cs → Desc.parse o (strD d ++ '#' :: cs) = .ok d := by
+  have hb : '#' ∉ strD d := fun e => (hcs '#' e).2 rfl
+  obtain ⟨cs, hc⟩ := (checksum_isSome_iff (strD d)).mpr fun c hc => (hcs c hc).1
+  have hacc := checksummed_accepted (strD d) cs hb hc
+  have hp := parseExpr_strD o .top d h ((strD d).length + 1) (by have := size_le_length o .top d h; omega)
+  refine ⟨by simp only [Desc.parse, hacc.2.1, hp], ?_⟩
+  intro cs' hc'
+  rw [hc] at hc'
+  cases hc'
+  simp only [Desc.parse, hacc.1, hp]
+
+/-- a small oracle for the examples: texts starting with `x` are extended public keys, every point is
+    on the curve. -/
+def exampleOracle : KeyOracle where
+  xkey t := if t.head? = some 'x' then some t else none
+  validPub _ := true
+  wif _ := none
+  validAddr _ := false
+
+/-- `sh(wsh(sortedmulti(2,[c0ffee00/84'/0']xA/0/*',02aa…aa)))`: non-trivial, well-formed, read back. -/
+example :
+    let k1 : Key := { origin := some { fp := [0xc0, 0xff, 0xee, 0x00], path := [2 ^ 31 + 84, 2 ^ 31] },
+                      atom := .xkey ['x', 'A'], path := [0], wildcard := some true, hard := .apos }
+    let k2 : Key := { origin := none, atom := .pub (2 :: List.replicate 32 0xaa) false, path := [],
+                      wildcard := none, hard := .h }
+    let d : D := .sh (.wsh (.multi 2 [k1, k2] true))
+    (strD d).take 44 = "sh(wsh(sortedmulti(2,[c0ffee00/84'/0']xA/0/*".toList ∧
+      Desc.parse exampleOracle (strD d) = .ok d := by
+  decide +kernel
+
+/-- a `tr()` with a tree: an x-only internal key, a `pk()` leaf and a `multi_a()` leaf. -/
+example :
+    let x : Key := { origin := none, atom := .pub (2 :: List.replicate 32 0x11) true, path := [],
+                     wildcard := none, hard := .h }
+    let e : Key := { origin := none, atom := .xkey ['x', 'B'], path := [1, 2 ^ 31 + 2], wildcard := some false,
+                     hard := .h }
+    let d : D := .tr x (some (.branch (.pk e) (.multiA 1 [x, e] false)))
+    Desc.parse exampleOracle (strD d) = .ok d := by
+  decide +kernel
+
+end T2
 
 end Props.C14
